@@ -122,10 +122,13 @@ pub fn synth_token(r: &mut Rng) -> String {
     let mut s = String::new();
     match r.below(6) {
         0 => {
-            s.push_str(*r.pick(&["", "", "", "#x", "#b", "#o", "#d", "#X", "#e", "#i"]));
+            let prefix = *r.pick(&["", "", "", "#x", "#b", "#o", "#d", "#X", "#e", "#i"]);
+            s.push_str(prefix);
             s.push_str(*r.pick(&["", "", "-", "+"]));
-            let body = if r.chance(3, 4) { "0123456789" } else { "0123456789.eE+-abcdefABCDEF_/" };
-            let n = *r.pick(&[1u64, 2, 3, 5, 9, 17, 19, 20, 21, 25]);
+            // mostly the digits of the radix (long enough to overflow 64 bits now and then), sometimes anything
+            let (digits, long) = match prefix { "#b" => ("01", 70), "#o" => ("01234567", 24), "#x" => ("0123456789abcdefABCDEF", 18), _ => ("0123456789", 25) };
+            let body = if r.chance(3, 4) { digits } else { "0123456789.eE+-abcdefABCDEF_/" };
+            let n = *r.pick(&[1u64, 2, 3, 5, 9, 17, 19, 20, 21, long]);
             s.push_str(&chars_from(r, body, 1, n));
             if r.chance(1, 3) {
                 s.push('.');
